@@ -60,6 +60,9 @@ func CurDomain() *Domain {
 	return x.domainOf()
 }
 
+// ExecID is the execution the domain belongs to.
+func (d *Domain) ExecID() int64 { return d.exec }
+
 // Crash marks the domain dead and runs its kill callbacks (which close its
 // endpoints, as the kernel does for a dead process).
 func (d *Domain) Crash() {
